@@ -163,6 +163,33 @@ func fileClasses(f akFile) (nontrivial bool, classes []string) {
 	return nkeys >= 2 && nother >= 1, classes
 }
 
+// installFile puts content at path the way an administrator or a deployment tool might: 0 = written in place,
+// 1 = prepared next to it and renamed over it, 2 = renamed over it with an old modification time (restore from a
+// backup, cp -p, rsync -t), 3 = written in place and given the previous file's modification time.
+func installFile(path string, content []byte, how int) {
+	var prev time.Time
+	if st, err := os.Stat(path); err == nil {
+		prev = st.ModTime()
+	}
+	switch how {
+	case 1, 2:
+		tmp := path + ".new"
+		os.WriteFile(tmp, content, 0o644)
+		if how == 2 {
+			old := time.Date(2019, 3, 1, 12, 0, 0, 0, time.UTC)
+			os.Chtimes(tmp, old, old)
+		}
+		os.Rename(tmp, path)
+	case 3:
+		os.WriteFile(path, content, 0o644)
+		if !prev.IsZero() {
+			os.Chtimes(path, prev, prev)
+		}
+	default:
+		os.WriteFile(path, content, 0o644)
+	}
+}
+
 // ---- (a) in-process public key callback ------------------------------------------------------------------
 
 type fakeMeta struct{ user string }
@@ -175,6 +202,7 @@ func (m fakeMeta) RemoteAddr() net.Addr  { return &net.TCPAddr{IP: net.IPv4(127,
 func (m fakeMeta) LocalAddr() net.Addr   { return &net.TCPAddr{IP: net.IPv4(127, 0, 0, 1), Port: 2222} }
 
 type keyCase struct {
+	Install   int // how the key files are put in place (see installFile)
 	File      akFile
 	OtherFile akFile // another user's file
 	Offered   int
@@ -182,7 +210,7 @@ type keyCase struct {
 }
 
 func genKeyCase(t *rapid.T) keyCase {
-	return keyCase{File: genAK(t, "a"), OtherFile: genAK(t, "b"), Offered: rapid.IntRange(0, len(pool)-1).Draw(t, "offered"),
+	return keyCase{Install: rapid.SampledFrom([]int{0, 0, 1, 2, 3}).Draw(t, "install"), File: genAK(t, "a"), OtherFile: genAK(t, "b"), Offered: rapid.IntRange(0, len(pool)-1).Draw(t, "offered"),
 		User: rapid.SampledFrom([]string{"alice", "alice", "alice", "bob", "nofile"}).Draw(t, "user")}
 }
 
@@ -191,8 +219,11 @@ func evalKeyCase(c keyCase) lib.Outcome {
 	o.NonTrivial, o.Classes = fileClasses(c.File)
 	o.Classes = append(o.Classes, "offered="+poolTyp[c.Offered], "user="+c.User)
 	cwd, _ := os.Getwd()
-	os.WriteFile(filepath.Join(cwd, "cache", "alice.authorized_keys"), []byte(c.File.text()), 0o644)
-	os.WriteFile(filepath.Join(cwd, "cache", "bob.authorized_keys"), []byte(c.OtherFile.text()), 0o644)
+	installFile(filepath.Join(cwd, "cache", "alice.authorized_keys"), []byte(c.File.text()), c.Install)
+	installFile(filepath.Join(cwd, "cache", "bob.authorized_keys"), []byte(c.OtherFile.text()), c.Install)
+	if c.Install >= 2 {
+		o.Classes = append(o.Classes, "key-file-replaced-keeping-an-old-mtime")
+	}
 	os.Remove(filepath.Join(cwd, "cache", "nofile.authorized_keys"))
 	want := false
 	switch c.User {
@@ -254,6 +285,7 @@ func server() (*lib.Server, error) {
 }
 
 type hsCase struct {
+	Install  int // how the key files are put in place (see installFile)
 	File     akFile
 	Offered  int
 	User     string
@@ -263,14 +295,25 @@ type hsCase struct {
 }
 
 var passwords = []string{"DTAIL-HEALTH", "dtail-health", "DTAIL-HEALTH ", "", "sjob-local", "sjob-ip", "sjob-other", "sjob-none", "sjob-unres", "cjob-local", "cjob-other", "cjob-none", "nosuchjob", "DTAIL-SCHEDULE", "DTAIL-CONTINUOUS", "dual-a", "dual-b", "dual-a", "dual-b"}
-var users = []string{"alice", "DTAIL-HEALTH", "DTAIL-SCHEDULE", "DTAIL-CONTINUOUS", "dtail-health", "root"}
+var users = []string{"alice", "DTAIL-HEALTH", "DTAIL-SCHEDULE", "DTAIL-CONTINUOUS", "dtail-health", "root", "Dtail-Health", "dtail-schedule", "DTAIL-continuous", "DTAIL-HEALTH "}
 
 func genHS(t *rapid.T) hsCase {
-	c := hsCase{File: genAK(t, "a"), Offered: rapid.IntRange(0, len(pool)-1).Draw(t, "offered"), User: rapid.SampledFrom(users).Draw(t, "user"),
+	c := hsCase{Install: rapid.SampledFrom([]int{0, 0, 1, 2, 3}).Draw(t, "install"), File: genAK(t, "a"), Offered: rapid.IntRange(0, len(pool)-1).Draw(t, "offered"), User: rapid.SampledFrom(users).Draw(t, "user"),
 		Method: rapid.SampledFrom([]string{"key", "password", "password"}).Draw(t, "method"), Password: rapid.SampledFrom(passwords).Draw(t, "password")}
 	if rapid.IntRange(0, 2).Draw(t, "pairing") == 0 {
 		// favour plausible pairings
-		switch rapid.IntRange(0, 3).Draw(t, "pair") {
+		switch rapid.IntRange(0, 4).Draw(t, "pair") {
+		case 4:
+			// a user name that only looks like a service user, with that service user's valid credentials
+			c.Method = "password"
+			switch rapid.IntRange(0, 2).Draw(t, "lookalike") {
+			case 0:
+				c.User, c.Password = rapid.SampledFrom([]string{"dtail-health", "Dtail-Health", "DTAIL-HEALTh"}).Draw(t, "lh"), "DTAIL-HEALTH"
+			case 1:
+				c.User, c.Password = rapid.SampledFrom([]string{"dtail-schedule", "Dtail-Schedule"}).Draw(t, "ls"), rapid.SampledFrom([]string{"sjob-local", "sjob-ip", "dual-a"}).Draw(t, "lsp")
+			default:
+				c.User, c.Password = rapid.SampledFrom([]string{"dtail-continuous", "DTAIL-continuous"}).Draw(t, "lc"), rapid.SampledFrom([]string{"cjob-local", "dual-b"}).Draw(t, "lcp")
+			}
 		case 0:
 			c.User, c.Method, c.Password = "DTAIL-HEALTH", "password", "DTAIL-HEALTH"
 		case 1:
@@ -299,8 +342,8 @@ func evalHS(c hsCase) lib.Outcome {
 	}
 	nt, classes := fileClasses(c.File)
 	o.Classes = append(classes, "method="+c.Method, "user="+c.User)
-	os.WriteFile(filepath.Join(s.Dir, "cache", "alice.authorized_keys"), []byte(c.File.text()), 0o644)
-	os.WriteFile(filepath.Join(s.Dir, "cache", "DTAIL-HEALTH.authorized_keys"), []byte(c.File.text()), 0o644) // a key file for the health user must not widen what it can do
+	installFile(filepath.Join(s.Dir, "cache", "alice.authorized_keys"), []byte(c.File.text()), c.Install)
+	installFile(filepath.Join(s.Dir, "cache", "DTAIL-HEALTH.authorized_keys"), []byte(c.File.text()), c.Install) // a key file for the health user must not widen what it can do
 	want := false
 	var auth []gossh.AuthMethod
 	if c.Method == "key" {
